@@ -77,6 +77,8 @@ struct Driver {
     /// orders live through long sequences of fills, refunds and partial rejects
     focus_ask: Option<String>,
     focus_bid: Option<String>,
+    /// the previous request of the history: now and then it is issued again verbatim (a client retry)
+    last_req: Option<ReqT>,
 }
 
 fn dec(n: i64, sp: &str) -> DecT {
@@ -734,6 +736,7 @@ impl Driver {
 
     // ------------------------------------------------------------------ one history
     fn history(&mut self, steps: usize) {
+        self.last_req = None;
         self.w.clear_storage();
         self.held.clear();
         self.logs.clear();
@@ -831,6 +834,13 @@ impl Driver {
                 Some(r) => r,
                 None => continue,
             };
+            // a retry: the previous request again, verbatim
+            let retry = self.chance(0.06);
+            let req = match (self.last_req.clone(), retry) {
+                (Some(prev), true) => prev,
+                _ => req,
+            };
+            self.last_req = Some(req.clone());
             let (_resp, post) = self.record(&req, false, need_reset, st.clone());
             need_reset = false;
             for k in st.asks.keys().chain(st.bids.keys()) {
@@ -911,6 +921,7 @@ pub fn main(args: &[String]) -> i32 {
         samples: vec![],
         focus_ask: None,
         focus_bid: None,
+        last_req: None,
     };
     for h in 0..histories {
         d.rng = StdRng::seed_from_u64(seed.wrapping_mul(1_000_003).wrapping_add(h as u64));
